@@ -16,7 +16,7 @@ PROPERTY = {
         'documents are parsed through Builder.add_source (source-level safety True), as Config.build does',
         'observational equality = for every node: kind, value, effective priority/delete/allow_new/safe, the explicit remove-this-key marker on empty nodes, the flags a container hands to children attached later, user metadata; plus equal results of probe merges in which the document is substituted',
     ],
-    'bounds': {'shapes': '9 two-site shapes (mapping/list/scalar/null/value-less/empty container/function node below mapping/list/function node) + 14 node kinds of the tag vocabulary below a flagged mapping',
+    'bounds': {'shapes': '10 two-site shapes (one holding quoted strings that look like f-strings, numbers, null, booleans, tags) (mapping/list/scalar/null/value-less/empty container/function node below mapping/list/function node) + 14 node kinds of the tag vocabulary below a flagged mapping',
                'flags per site': 'one of the pairs (priority, delete), (allow_new, safe), (delete, allow_new), (priority, safe), each flag absent or any value - symbolic', 'user metadata': 'present on the inner site (symbolic presence)'},
     'outside': ['explicit safe=True below an unsafe ancestor (no !safe tag exists in the loader)', 'documents evaluated from unsafe sources', 'anchors/aliases, comments, styles'],
     'per_split_timeout': {'quick': 600, 'thorough': 1800},
@@ -33,6 +33,8 @@ SHAPES = [
     'a: %(A)s [%(B)s [], {}]',
     'a: %(A)s {b: %(B)s {}}',
     'a: %(A)s {b: {c: %(B)s [1]}, d: [2]}',
+    # quoted strings whose text looks like something else must come back as the same strings
+    'a: %(A)s [%(B)s "f\'{c}\'", "123", "null", "~", "true", "!xref a", "1e3", " padded "]',
 ]
 KINDS = [
     "!xref a.c", "!eval 'a'", "f'{a}'", "!import math.pi", "!path [x]", "!path:parent(1) [x]", "!required ", "!clear ",
@@ -174,7 +176,7 @@ def _splits(tier):
     pairs = ['pd', 'ns', 'dn', 'ps']
     if tier == 'quick':
         combos = {0: [('pd', 'pd')], 1: [('ns', 'dn')], 2: [('dn', 'pd')], 3: [('pd', 'ps')],
-                  4: [('pd', 'pd')], 6: [('dn', 'dn')], 8: [('dn', 'ns')]}
+                  4: [('pd', 'pd')], 6: [('dn', 'dn')], 8: [('dn', 'ns')], 9: [('pd', 'ns')]}
         for sh, cs in combos.items():
             for pa, pb in cs:
                 for bits in range(8):
